@@ -46,7 +46,7 @@ class Shadow:
                 return
         # a view of a known family: recompute the index array by replaying the call on index arrays
         self.owner[name] = oname
-        if st["k"] == "alias":
+        if st["k"] in ("alias", "constof"):
             self.idx[name] = self.idx[st["src"]]
             return
         if st["k"] == "leaf":  # view_of leaves not used
@@ -84,7 +84,7 @@ class Shadow:
             self.raised[i] = e
             return i, st, exc
         k = st["k"]
-        if k in ("leaf", "call", "alias"):
+        if k in ("leaf", "call", "alias", "constof"):
             self._register(st["out"], i, st)
         elif k in INPLACE_KINDS:
             t = st["tgt"]
